@@ -5,3 +5,4 @@ pub mod msparql;
 pub mod qast;
 pub mod qgen;
 pub mod qshrink;
+pub mod upd;
